@@ -22,7 +22,7 @@ def setup():
     return 0 if ok else 1
 
 
-ALL_TABLES = ["TypeTables", "ErrFormats", "PoolSites"]
+ALL_TABLES = ["TypeTables", "ErrFormats", "PoolSites", "NondetSites"]
 
 if __name__ == '__main__':
     sys.exit(setup() if sys.argv[1:] == ['setup'] else 2)
